@@ -12,7 +12,7 @@ CHECKS = {
          "DESIGN.md §3 C11"),
  "C15": ("model_checking",
          "stateless model checking of the real code under a cooperative scheduler with happens-before state caching; every schedule is simultaneously a race-detector execution whose happens-before graph only contains the library's own synchronisation (scheduler hand-offs hidden with RaceDisable/RaceEnable)",
-         "Scenarios S-A (rows of different column types), S-B (same statement/portal names, different queries and values), S-C (different users + configured global parameters), S-F (one connection in its error / skip-until-Sync window while the other works), S-G (two cleartext-password authentications interleaving), thorough: S-D (3 connections), S-E (COPY-in vs queries); scripts pre-loaded one message per segment, handlers and validator with yield points. Quick: every schedule with <=2 preemptions; thorough: ALL schedules (unbounded, happens-before state cache) for S-A, S-C, S-G and <=3 preemptions for the rest, on the instrumented real code built with -race; plus a free-running -race pass over the same bodies as a cross-check. Oracle 1: each connection's transcript (ParameterStatus as multiset) and callback trace equal those of the same script served alone; the configured parameter map is unchanged. Oracle 2: the race detector reports nothing (reports are attributed to the schedule that just ran and keyed by their frames).",
+         "Scenarios S-A (rows of different column types), S-B (same statement/portal names, different queries and values), S-C (different users + configured global parameters), S-F (one connection in its error / skip-until-Sync window while the other works), S-G (two cleartext-password authentications interleaving), thorough: S-D (3 connections), S-E (COPY-in vs queries); scripts pre-loaded one message per segment, handlers and validator with yield points. Quick: every schedule with <=2 preemptions; thorough: ALL schedules (unbounded, happens-before state cache) for S-A, S-C, S-G and <=3 preemptions for the rest, on the instrumented real code built with -race; plus a free-running -race pass over the same bodies as a cross-check. Serial part: every ordered pair (predecessor, subject) of ~70 canonical sessions served one after the other on ONE server; the subject must receive exactly what it receives alone (state left behind by an earlier connection). Oracle 1: each connection's transcript (ParameterStatus as multiset) and callback trace equal those of the same script served alone; the configured parameter map is unchanged. Oracle 2: the race detector reports nothing (reports are attributed to the schedule that just ran and keyed by their frames).",
          "Race clause relies on the Go race detector's happens-before precision; pgx / stdlib are observed, not instrumented. Harness state shared between threads is only written from //go:norace code so that the harness adds no happens-before edges between connections.",
          "DESIGN.md §3 C15"),
  "C16": ("model_checking",
@@ -27,7 +27,7 @@ CHECKS = {
          "DESIGN.md §3 C01"),
  "C02": ("model_checking",
          "explicit-state enumeration of frame-writer operation sequences x sink faults on the real buffer.Writer against a list-of-frames model; enumeration of odd-vocabulary sessions on a real server with every captured byte parsed by an independent strict backend grammar; write-fault enumeration",
-         "F1: every operation sequence of length <=6 (quick) / <=7 (thorough) over 13 writer operations x 6 sink behaviours vs. a list-of-frames model, invariant after every step. F2: every ErrorResponse shape to depth 3. F3: ~2.4k (quick) sessions combining result-writer programs, odd column names/tags, all 64 decorator subsets, all extended histories of length <=2, startup/global parameters with empty and non-ASCII values, auth, SSL refusal, COPY for 1-3 columns x 2 formats, oversized/unknown; the complete server output must parse under the strict grammar with no residue and each message be one write; for every 3rd session every failing-write position.",
+         "F1: every operation sequence of length <=6 (quick) / <=7 (thorough) over 13 writer operations x 6 sink behaviours vs. a list-of-frames model, invariant after every step. F2: every ErrorResponse shape to depth 3. F3: ~2.4k (quick) sessions combining result-writer programs, odd column names/tags, all 64 decorator subsets, all extended histories of length <=2, startup/global parameters with empty and non-ASCII values, auth, SSL refusal, COPY for 1-3 columns x 2 formats, oversized/unknown; the complete server output must parse under the strict grammar with no residue and each message be one write; for every 3rd session every failing-write position. Schedule part (cooperative scheduler): Close racing connections whose row value yields to the scheduler while its DataRow frame is half built; all schedules up to 2 preemptions, every connection's output parsed strictly.",
          "Trusts the independent strict grammar (pgproto/backend.go). Handler strings are NUL-free; buffer.Writer used within Start..End.",
          "DESIGN.md §3 C02"),
  "C03": ("model_checking",
@@ -67,12 +67,12 @@ CHECKS = {
          "DESIGN.md §3 C12"),
  "C13": ("model_checking",
          "exhaustive enumeration of client message sequences after a CopyInResponse x handler reading policies x column count/format x simple/extended mode on a real server, compared per message with a reference simulation of the COPY sub-protocol",
-         "All sequences of length <=4 (quick) / <=5 (thorough) over 11 letters (CopyData x3, CopyDone, CopyFail, Flush, Sync, Query, unknown type, oversized CopyData, Terminate) x 6 handler policies x {(1 col,text),(3 cols,binary)} x {simple, extended}, followed by Sync+Query (387k sessions quick): CopyInResponse format/columns, chunks seen by the handler byte-exact and in order, Flush/Sync invisible, CopyDone = EOF, CopyFail/foreign = non-EOF error, exactly one ErrorResponse and one ReadyForQuery per aborted cycle, COPY messages outside COPY ignored.",
+         "All sequences of length <=4 (quick) / <=5 (thorough) over 11 letters (CopyData x3, CopyDone, CopyFail, Flush, Sync, Query, unknown type, oversized CopyData, Terminate) x 6 handler policies x {(1 col,text),(3 cols,binary)} x {simple, extended}, followed by Sync+Query (387k sessions quick): CopyInResponse format/columns, chunks seen by the handler byte-exact and in order, Flush/Sync invisible, CopyDone = EOF, CopyFail/foreign = non-EOF error, exactly one ErrorResponse and one ReadyForQuery per aborted cycle, COPY messages outside COPY ignored; the same abort discipline through the binary row reader (before and after its end-of-data trailer).",
          "A handler that keeps reading after the abort error is only required to yield exactly one E and one Z.",
          "DESIGN.md §3 C13"),
  "C14": ("model_checking",
          "exhaustive enumeration of binary COPY streams x all splits into CopyData messages up to a cut bound (deviation = one cut) x single corruptions, decoded by the real BinaryCopyReader in a live session and compared with an independent encoder",
-         "Tables of 1-3 columns (int4,text,bool; +int8,float8,bytea thorough) x 0-2 rows x every NULL placement x trailer present/absent; every split with <=2 (3 thorough) cuts, uniform chunk sizes, empty CopyData interleaved; corruptions: field count +1/-1/0/32768/65535, well-formed extra/missing field, field length beyond data / 0xFFFFFFFE, every truncation point. Rows must equal what was encoded for every split; every corruption must be a non-EOF error, never a crash or a fabricated row.",
+         "Tables of 1-3 columns (int4,text,bool; +int8,float8,bytea thorough) x 0-2 rows x every NULL placement x trailer present/absent; every split with <=2 (3 thorough) cuts, uniform chunk sizes, empty CopyData interleaved; corruptions: field count +1/-1/0/32768/65535, well-formed extra/missing field, field length beyond data / 0xFFFFFFFE, every truncation point. Rows must equal what was encoded for every split; every corruption must be a non-EOF error, never a crash or a fabricated row; an abort (CopyFail / foreign message) after the end-of-data trailer must surface as an error; values longer than a small message limit split over several CopyData messages must decode.",
          "Header flags/extension are 0. A stream cut exactly at a row boundary must decode cleanly (trailer-less streams are accepted).",
          "DESIGN.md §3 C14"),
  "C18": ("model_checking",
